@@ -573,6 +573,63 @@ def gen_rc_cases(rng, count, big):
     return cases
 
 
+def gen_li_cases(rng, count):
+    """util::stream::LineInput: (input, block size, read split) alignments; every line is shorter than a block.  Some inputs are
+    laid out so that a block ends exactly on a newline right after a block that ended in the middle of a line."""
+    cases = []
+    for _ in range(count):
+        bs = rng.choice([16, 24, 32, 33, 64, 64, 100, 257, 1024, 4096])
+        nblocks = rng.choice([0, 1, 2, 3, 5, 9, rng.range(2, 40)]) if bs <= 1024 else rng.range(1, 6)
+        out = bytearray()
+        style = rng.below(4)
+        while len(out) < nblocks * bs:
+            if style == 0:
+                ln = rng.range(1, bs - 1)
+            elif style == 1:
+                ln = rng.choice([1, 2, bs - 1, bs - 2, bs // 2, bs // 2 + 1, rng.range(1, bs - 1)])
+            elif style == 2:
+                ln = rng.range(1, max(2, bs // 4))
+            else:
+                # simulate the reader: make this line end exactly where the current block ends, when it fits
+                ln = rng.range(1, bs - 1)
+                carry = len(out) - (out.rfind(b"\n") + 1) if b"\n" in out else len(out)
+                room = bs - (len(out) % bs)
+                if rng.chance(1, 2) and 1 <= room < bs and carry < bs:
+                    ln = room
+            out += bytes(rng.choice(b"abcxyz 0123\r") for _ in range(ln - 1)) + b"\n"
+        data = bytes(out)
+        if data and rng.chance(1, 4):
+            data = data[:-1]                        # no final newline: the last block is a partial line
+        src = rng.choice("FRR")
+        chunks = [rng.choice([1, 2, 5, 6, 7, bs - 1, bs, bs + 1, rng.range(1, 3 * bs)]) for _ in range(100)] if src == "R" and rng.chance(3, 4) else []
+        comp = b""
+        if rng.chance(1, 4):
+            comp = compress(rng, data, rng.choice(["gz", "bz2", "xz"]))
+        cases.append("LI %s %x %s %s %s" % (src, bs, hexs(data), hexs(comp), ",".join("%x" % c for c in chunks) or "-"))
+    return cases
+
+
+def judge_li(case, out):
+    """the blocks put back together are the input's bytes; every block that is followed by more data ends with a newline"""
+    f = case.split()
+    data = bytes.fromhex(f[3]) if f[3] != "-" else b""
+    o = out.split()
+    if len(o) != 3:
+        return "unexpected answer %r" % out[:200]
+    sizes = [int(x, 16) for x in o[0].split(",")] if o[0] != "-" else []
+    h = 7
+    for x in data:
+        h = (h * 257 + x + 1) % 2147483647
+    if int(o[1], 16) != len(data) or int(o[2], 16) != h or sum(sizes) != len(data):
+        return "the blocks add up to %d bytes (hash %s), the input has %d bytes (hash %x): bytes were lost, repeated or changed" % (int(o[1], 16), o[2], len(data), h)
+    at = 0
+    for k, s in enumerate(sizes):
+        at += s
+        if at < len(data) and s and data[at - 1] != 10:
+            return "block #%d (of %d bytes) ends in the middle of a line" % (k, s)
+    return None
+
+
 def gen_tk_cases(rng, count):
     """TokenIter over in-memory strings; expected tokens computed from the property text (split / words)"""
     cases = []
@@ -671,7 +728,7 @@ def run(ctx):
     os.environ["C18_SCRATCH"] = ctx.scratch
     corpus = corpus_cases()
     ctx.count("corpus_cases", len(corpus))
-    fp_cases = [c for c in corpus if c.startswith("FP ")] + gen_fp_cases(rng, ctx.pick(260, 1500), big)
+    fp_cases = [c for c in corpus if c.startswith("FP ")] + gen_fp_cases(rng, ctx.pick(200, 1500), big)
     for name in ("/proc/version", "/proc/filesystems", "/proc/sys/kernel/ostype"):
         # procfs: size 0, mmap fails, read() works -- the first-window fallback without any fault injection
         try:
@@ -721,6 +778,9 @@ def run(ctx):
     # ReadCompressed::Read with random request sizes: plaintext reproduced, 0 for ever after the end
     rc_out = run_parallel(impl, [c for c, _ in rc], jobs=4)
     rc_fail = [(c, o, e) for (c, e), o in zip(rc, rc_out) if o != e]
+    li = gen_li_cases(rng, ctx.pick(300, 4000))
+    li_out = vlib.run_lines(impl, li)
+    li_fail = [(c, o, judge_li(c, o)) for c, o in zip(li, li_out) if judge_li(c, o)]
     tk = gen_tk_cases(rng, ctx.pick(400, 4000))
     tk_out = vlib.run_lines(impl, [c for c, _ in tk])
     tk_fail = [(c, o, e) for (c, e), o in zip(tk, tk_out) if o != e]
@@ -743,6 +803,11 @@ def run(ctx):
             if len(mt) != len(it) or not all(tokens_equal(x, y) for x, y in zip(mt, it)):
                 k = next((j for j, (x, y) in enumerate(zip(mt, it)) if not tokens_equal(x, y)), min(len(mt), len(it)))
                 mismatches.append((c, a, b, k))
+        li_model = run_parallel(model, li, env=MODEL_ENV, prefix=MODEL_PREFIX, jobs=8)
+        li_mismatch = [(c, o, m) for c, o, m in zip(li, li_out, li_model) if o != m]
+        ctx.coverage["line_input_model_mismatches"] = len(li_mismatch)
+        if li_mismatch:
+            mismatches.append((li_mismatch[0][0], li_mismatch[0][1], li_mismatch[0][2], 0))
         tk_model = vlib.run_lines(model, [c for c, _ in tk], env=MODEL_ENV, prefix=MODEL_PREFIX)
         tk_mismatch = [(c, o, m) for (c, _), o, m in zip(tk, tk_out, tk_model) if o != m]
         ctx.coverage["tokeniter_model_mismatches"] = len(tk_mismatch)
@@ -765,7 +830,7 @@ def run(ctx):
     except vlib.ModelBroken as e:
         model_broken = str(e)
     lap("model")
-    ctx.count("evaluations", len(fp_cases) + len(rc) + len(tk))
+    ctx.count("evaluations", len(fp_cases) + len(rc) + len(tk) + len(li))
     ctx.coverage["distinct_nontrivial"] = len(nontrivial)
     ctx.coverage["rule"] = ("case = (input bytes, backend, min_buffer, read() length list, operation string); inputs are laid out so that token, "
                             "line and number ends fall on and next to multiples of 4096 and of the window size, with very long tokens/lines, "
@@ -793,7 +858,9 @@ def run(ctx):
         ctx.report("spec:read_compressed", "ReadCompressed::Read did not reproduce the plaintext (got '%s', expected '%s')" % (o, e), {"case": c, "impl_output": o, "expected": e})
     for c, o, e in tk_fail[:3]:
         ctx.report("spec:tokeniter:" + c.split()[1], "util::TokenIter returned %s, the string splits into %s" % (o[:200], e[:200]), {"case": c, "impl_output": o, "expected": e})
-    if not spec_fail and not rc_fail and not tk_fail:
+    for c, o, msg in li_fail[:3]:
+        ctx.report("spec:line_input", "util::stream::LineInput: " + msg, {"case": c, "impl_output": o})
+    if not spec_fail and not rc_fail and not tk_fail and not li_fail:
         if mismatches:
             c, a, b, k = mismatches[0]
             ctx.report("correspondence:filepiece", "model and implementation disagree (the specification oracle accepts the implementation's answer)",
@@ -802,7 +869,8 @@ def run(ctx):
         elif model_broken:
             ctx.report("model-broken", "executable model no longer builds", {"log": model_broken[-2000:]}, found=False)
         ctx.report_proof(pres)
-    ctx.coverage["spec_oracle_failures"] = len(spec_fail) + len(rc_fail) + len(tk_fail)
+    ctx.coverage["spec_oracle_failures"] = len(spec_fail) + len(rc_fail) + len(tk_fail) + len(li_fail)
+    ctx.coverage["line_input_cases"] = len(li)
     ctx.coverage["tokeniter_cases"] = len(tk)
     ctx.coverage["correspondence_mismatches"] = len(mismatches)
 
@@ -812,6 +880,10 @@ def replay(ctx, obj):
     impl = vlib.compile_driver("c18_driver", DRIVER_SRC, libs=("kenlm_util",))
     c = obj["replay"]["case"]
     o = vlib.run_lines(impl, [c])[0]
+    if c.startswith("LI "):
+        msg = judge_li(c, o)
+        print("case:", c[:200], "\nimpl:", o[:300], "\noracle:", msg or "ok")
+        return 1 if msg else 0
     if c.startswith("RC ") or c.startswith("TK "):
         print("case:", c[:200], "\nimpl:", o, "\nexpected:", obj["replay"].get("expected"))
         return 0 if o == obj["replay"].get("expected") else 1
